@@ -1,11 +1,13 @@
 package main
 
 import (
+	"context"
 	"fmt"
 	"strings"
 	"time"
 
 	"github.com/failsafe-go/failsafe-go"
+	"github.com/failsafe-go/failsafe-go/verifrt/vcontext"
 	"github.com/failsafe-go/failsafe-go/verifrt/vrt"
 )
 
@@ -14,6 +16,8 @@ type RunOpts struct {
 	Probes bool
 	Reduce bool
 	Check  func(env *Env) string
+	// CtxDeadline: the execution runs under a caller context with this deadline (0 = none)
+	CtxDeadline time.Duration
 }
 
 // eventSummary is a compact rendering of the event log (used to tell outcomes apart).
@@ -49,6 +53,11 @@ func stackBody(stack []Spec, script []Out, o RunOpts) func() {
 		env := NewEnv(stack)
 		env.Script = script
 		env.Reduce = o.Reduce
+		if o.CtxDeadline != 0 {
+			ctx, cancel := vcontext.WithDeadline(context.Background(), time.Unix(0, vrt.Now()).Add(o.CtxDeadline))
+			defer cancel()
+			env.Ctx, env.ExternalCancel = ctx, true
+		}
 		env.runSync(o.Probes)
 		if o.Grace > 0 {
 			vrt.Sleep(int64(o.Grace))
